@@ -137,6 +137,9 @@ def _worker_run(task):
             signal.signal(signal.SIGALRM, _task_alarm)
             signal.setitimer(signal.ITIMER_REAL, TASK_TIMEOUT)
         try:
+            if getattr(_MOD, "PRELUDE", True):
+                from mc import prelude
+                prelude.dirty()         # every shard starts in a library that has just seen failing calls of every kind
             r = _MOD.run(task)
         finally:
             if own_timer:
